@@ -169,7 +169,16 @@ HRecvEOF == /\ hpc = "recv" /\ inflight = 0 /\ (reqEOF \/ hctx # "live") /\ hsaw
 HSkipRecv == /\ hpc = "recv" /\ hr >= sc.hrecv /\ ~(sc.hdrain /\ hs = sc.hsend)
              /\ hpc' = IF hs < sc.hsend THEN "send" ELSE "ret"
              /\ UNCHANGED <<usr, lib, inflight, reqEOF, hr, hs, hsawEOF, hctx, hdrs, rbuf, rterm, aborted, bodyClosed, log>>
-HSendMsg == /\ hpc = "send" /\ hs < sc.hsend /\ hs' = hs + 1 /\ hdrs' = TRUE /\ rbuf' = rbuf + 1
+\* hflood: the handler keeps sending until a Send fails, i.e. until the client has gone away (CloseResponse drains a
+\* bounded amount and closes the body: protocol.go discard)
+Flood == "hflood" \in DOMAIN sc /\ sc.hflood
+HFlood == /\ hpc = "send" /\ Flood /\ ~bodyClosed /\ hctx = "live" /\ ~aborted
+          /\ hdrs' = TRUE /\ rbuf' = IF rbuf < 2 THEN rbuf + 1 ELSE rbuf
+          /\ UNCHANGED <<usr, lib, inflight, reqEOF, hpc, hr, hs, hsawEOF, hctx, rterm, aborted, bodyClosed, log>>
+HFloodEnd == /\ hpc = "send" /\ Flood /\ (bodyClosed \/ hctx # "live" \/ aborted)
+             /\ hpc' = "ret" /\ hctx' = "canceled"
+             /\ UNCHANGED <<usr, lib, inflight, reqEOF, hr, hs, hsawEOF, hdrs, rbuf, rterm, aborted, bodyClosed, log>>
+HSendMsg == /\ hpc = "send" /\ ~Flood /\ hs < sc.hsend /\ hs' = hs + 1 /\ hdrs' = TRUE /\ rbuf' = rbuf + 1
             /\ hpc' = IF hs + 1 = sc.hsend THEN (IF sc.hdrain /\ ~hsawEOF THEN "recv" ELSE "ret") ELSE "send"
             /\ UNCHANGED <<usr, lib, inflight, reqEOF, hr, hsawEOF, hctx, rterm, aborted, bodyClosed, log>>
 \* hret = "stall": the handler waits for its context to end and returns the context's error
@@ -180,7 +189,8 @@ HReturn == /\ hpc = "ret" /\ (sc.hret = "stall" => hctx # "live")
 Lib == SendBegin \/ CloseReqBegin \/ W1 \/ W2 \/ W3ok \/ W3eof \/ WC
        \/ RecvBegin \/ R1 \/ R2 \/ R5 \/ CloseRespBegin \/ C1
        \/ QDoOK \/ QDoErr \/ QVal \/ QReady
-Env == TrConsume \/ TrReqEOF \/ TrAbort \/ TrBodyErr \/ TrCloseReq \/ HStart \/ HRecvMsg \/ HRecvEOF \/ HSkipRecv \/ HSendMsg \/ HReturn
+Env == TrConsume \/ TrReqEOF \/ TrAbort \/ TrBodyErr \/ TrCloseReq \/ HStart \/ HRecvMsg \/ HRecvEOF \/ HSkipRecv \/ HSendMsg
+       \/ HFlood \/ HFloodEnd \/ HReturn
 Next == Lib \/ Env \/ Cancel
 
 Fair == /\ WF_vars(W1) /\ WF_vars(W2) /\ WF_vars(W3ok) /\ WF_vars(W3eof) /\ WF_vars(WC)
